@@ -69,10 +69,19 @@ where
     T: for<'a> Arbitrary<'a> + Evaluate,
 {
     let detail = |obs: serde_json::Value| json!({"bytes": bytes, "piece_type": kind, "observation": obs});
+    examine_result::<T>(bytes, kind, cx, guard(|| Piecewise::<T>::arbitrary_take_rest(Unstructured::new(bytes))), "arbitrary_take_rest")?;
     let r = guard(|| {
         let mut u = Unstructured::new(bytes);
         Piecewise::<T>::arbitrary(&mut u)
     });
+    examine_result::<T>(bytes, kind, cx, r, "arbitrary")
+}
+
+fn examine_result<T>(bytes: &[u8], kind: &str, cx: &mut Cx, r: Result<arbitrary::Result<Piecewise<T>>, String>, entry: &str) -> Verdict
+where
+    T: for<'a> Arbitrary<'a> + Evaluate,
+{
+    let detail = |obs: serde_json::Value| json!({"bytes": bytes, "piece_type": kind, "entry_point": entry, "observation": obs});
     cx.evals(1);
     let (dec, _) = ref_decode(bytes);
     let r = match r {
